@@ -6,16 +6,16 @@ use super::{config::Config, types::Commitment};
 use crate::swiftness_commitment::vector::commit::vector_commit;
 verus! {
 broadcast use crate::prelude::group_felt;
-//@repo crates/commitment/src/table/commit.rs fn table_commit props=C08
+//@repo crates/commitment/src/table/commit.rs fn table_commit props=C01,C02,C08
 pub fn table_commit(
     transcript: &mut Transcript,
     unsent_commitment: Felt,
     config: Config,
 ) -> (r: Commitment)
     ensures
-        final(transcript).digest@ == ts_absorb1(old(transcript).digest@, unsent_commitment@), // [C08:table-root-absorbed]
+        final(transcript).digest@ == ts_absorb1(old(transcript).digest@, unsent_commitment@), // [C01,C02,C08:table-root-absorbed]
         final(transcript).counter@ == 0,
-        r.config == config, r.vector_commitment.config == config.vector, r.vector_commitment.commitment_hash == unsent_commitment, // [C08:table-commitment-keeps-root-and-config]
+        r.config == config, r.vector_commitment.config == config.vector, r.vector_commitment.commitment_hash == unsent_commitment, // [C01,C02,C08:table-commitment-keeps-root-and-config]
 {
     let vector_commitment = vector_commit(transcript, unsent_commitment, config.vector.clone());
     Commitment { config, vector_commitment }
